@@ -41,12 +41,11 @@ func (StandIn) NewSigner(keys ...gpbft.PubKey) gpbft.Signer  { return NewSigner(
 
 // ---- production BLS ----
 
-const blsPool = 32
-
 type blsScheme struct {
 	*blssig.Verifier
 	scheme *bdn.Scheme
-	pubs   []gpbft.PubKey
+	mu     sync.RWMutex
+	pubs   map[uint64]gpbft.PubKey
 	privs  map[string]kyber.Scalar
 }
 
@@ -80,21 +79,11 @@ func (d *detReader) Read(p []byte) (int, error) {
 var _ io.Reader = (*detReader)(nil)
 
 // BLS returns the process-wide production-BLS scheme: go-f3's blssig.Verifier for everything that
-// verifies/aggregates, and a fixed pool of 32 deterministic key pairs held by the harness.
+// verifies/aggregates, and deterministic key pairs (derived from the key index) held by the harness.
 func BLS() Scheme {
 	blsOnce.Do(func() {
 		suite := bls12381.NewSuiteBLS12381()
-		s := &blsScheme{Verifier: blssig.VerifierWithKeyOnG1(), scheme: bdn.NewSchemeOnG2(suite), privs: map[string]kyber.Scalar{}}
-		for i := 0; i < blsPool; i++ {
-			priv, pub := s.scheme.NewKeyPair(random.New(&detReader{ctr: uint64(i) << 32}))
-			b, err := pub.MarshalBinary()
-			if err != nil {
-				panic(err)
-			}
-			s.pubs = append(s.pubs, b)
-			s.privs[string(b)] = priv
-		}
-		blsInst = s
+		blsInst = &blsScheme{Verifier: blssig.VerifierWithKeyOnG1(), scheme: bdn.NewSchemeOnG2(suite), privs: map[string]kyber.Scalar{}, pubs: map[uint64]gpbft.PubKey{}}
 	})
 	return blsInst
 }
@@ -102,11 +91,38 @@ func BLS() Scheme {
 func (s *blsScheme) Name() string { return "blssig (production BLS12-381 BDN via gnark adapter)" }
 
 func (s *blsScheme) PubKey(_ uint32, i uint64) gpbft.PubKey {
-	return append(gpbft.PubKey{}, s.pubs[int(i%blsPool)]...)
+	i %= 4096
+	s.mu.RLock()
+	pk, ok := s.pubs[i]
+	s.mu.RUnlock()
+	if !ok {
+		priv, pub := s.scheme.NewKeyPair(random.New(&detReader{ctr: i << 32}))
+		b, err := pub.MarshalBinary()
+		if err != nil {
+			panic(err)
+		}
+		s.mu.Lock()
+		if prev, dup := s.pubs[i]; dup {
+			b = prev
+		} else {
+			s.pubs[i] = b
+			s.privs[string(b)] = priv
+		}
+		s.mu.Unlock()
+		pk = b
+	}
+	return append(gpbft.PubKey{}, pk...)
+}
+
+func (s *blsScheme) priv(pk gpbft.PubKey) (kyber.Scalar, bool) {
+	s.mu.RLock()
+	defer s.mu.RUnlock()
+	p, ok := s.privs[string(pk)]
+	return p, ok
 }
 
 func (s *blsScheme) RawSign(pk gpbft.PubKey, msg []byte) []byte {
-	priv, ok := s.privs[string(pk)]
+	priv, ok := s.priv(pk)
 	if !ok {
 		return make([]byte, SigLen)
 	}
@@ -126,7 +142,7 @@ func (b *blsSigner) Sign(_ context.Context, pk gpbft.PubKey, msg []byte) ([]byte
 	if _, ok := b.own[string(pk)]; !ok {
 		return nil, errors.New("vsig/bls: signer does not own this key")
 	}
-	priv, ok := b.s.privs[string(pk)]
+	priv, ok := b.s.priv(pk)
 	if !ok {
 		return nil, errors.New("vsig/bls: unknown key")
 	}
